@@ -974,6 +974,17 @@ def _handle_upload_pack_head(
     if protocol_version != 2:
         proto.write_pkt_line(None)
 
+    shallow_request = (
+        depth not in (0, None) or shallow_since is not None or bool(shallow_exclude)
+    )
+    shallow_updates: tuple[set[ObjectID], set[ObjectID]] | None = None
+    if shallow_request and can_read is not None and protocol_version != 2:
+        # On a stateful connection the server answers a deepen request with
+        # its shallow/unshallow lines as soon as it has read the flush-pkt
+        # above, before it looks at any "have". Read them now: otherwise the
+        # negotiation loop below would take them for ACKs and drop them.
+        shallow_updates = _read_shallow_updates(proto.read_pkt_seq())
+
     have = next(graph_walker)
     in_vain = 0
     got_ack = False
@@ -1006,8 +1017,10 @@ def _handle_upload_pack_head(
     if protocol_version == 2:
         proto.write_pkt_line(None)
 
-    if depth not in (0, None) or shallow_since is not None or shallow_exclude:
-        if can_read is not None:
+    if shallow_request:
+        if shallow_updates is not None:
+            (new_shallow, new_unshallow) = shallow_updates
+        elif can_read is not None:
             (new_shallow, new_unshallow) = _read_shallow_updates(proto.read_pkt_seq())
         else:
             new_shallow = None
